@@ -930,8 +930,9 @@ class TestResult(unittest.TestResult):
         # This requires some care.
         class BufferedStandardStream(io.TextIOWrapper):
             def getvalue(self):
+                # A test may have written arbitrary bytes to ``buffer``.
                 return self.buffer.getvalue().decode(
-                    encoding=self.encoding, errors=self.errors)
+                    encoding=self.encoding, errors='replace')
 
         return BufferedStandardStream(
             io.BytesIO(), newline='\n', write_through=True)
